@@ -435,7 +435,7 @@ impl<'a> Walker<'a> {
         l.n.visits += 1;
         // trees at the end of pre-rolled long games are about the HISTORY the board carries: they are
         // never merged with (or into) states reached by another route
-        if self.cfg.dedup && item.prefix.len() <= 64 {
+        if self.cfg.dedup && item.prefix.len() <= 64 && !item.seed_name.contains("@clock") {
             let sh = &self.visited[shard_of(&ck)];
             let prior = {
                 let mut g = sh.lock().unwrap();
